@@ -107,6 +107,18 @@ Proof.
   rewrite !ind_ok_iff. intros (H1 & H2 & H3 & H4) Hl. cbn [set_best rows cats best]. repeat split; auto; lia.
 Qed.
 
+Lemma gene_ok_inv ss R C patch r c ge : gene_ok_b ss R C patch r c ge = true ->
+  sym_in_b ss (g_sym ge) = true /\ s_cat (g_sym ge) = c /\ length (g_args ge) = arity (g_sym ge) /\
+  forallb (fun a => Nat.ltb r a && Nat.ltb a R) (g_args ge) = true /\
+  forallb (fun ac => Nat.ltb ac C) (s_argcats (g_sym ge)) = true /\
+  (if Nat.leb (R - patch) r then is_terminal (g_sym ge) else true) = true /\
+  (s_parametric (g_sym ge) = true -> F64.is_nan (g_par ge) = false).
+Proof.
+  unfold gene_ok_b. rewrite !andb_true_iff. intros [[[[[[H1 H2] H3] H4] H5] H6] H7].
+  apply Nat.eqb_eq in H2, H3. repeat split; auto.
+  intros Hp. rewrite Hp in H7. apply negb_true_iff in H7. exact H7.
+Qed.
+
 (* ------------------------------------------------------------ symbol set *)
 Definition sym_good (ss : sset) (c : nat) (s : sym) : Prop :=
   sym_in_b ss s = true /\ s_cat s = c /\ forallb (fun ac => Nat.ltb ac (ss_cats ss)) (s_argcats s) = true.
@@ -212,12 +224,20 @@ Proof.
 Qed.
 
 (* ------------------------------------------------------- gene producers *)
+Lemma init_par_nonan ds p ds' : init_par ds = Some (p, ds') -> F64.is_nan p = false.
+Proof.
+  unfold init_par. destruct ds as [|[lo hi v|p' v|bits] r]; try discriminate.
+  - destruct (valid_draw_b (DInt lo hi v)); [|discriminate]. intros H. inversion H. subst.
+    apply Flocq.IEEE754.BinarySingleNaN.is_nan_binary_normalize.
+  - destruct (F64.is_nan (F64.of_bits bits)) eqn:E; [discriminate|]. intros H. inversion H. subst. exact E.
+Qed.
+
 Lemma gene_of_terminal_inv t ds ge ds' : gene_of_terminal t ds = Some (ge, ds') ->
-  g_sym ge = t /\ g_args ge = [].
+  g_sym ge = t /\ g_args ge = [] /\ (s_parametric t = true -> F64.is_nan (g_par ge) = false).
 Proof.
   unfold gene_of_terminal. destruct (s_parametric t); intros H.
-  - mbind H. mret H. inversion H. subst. split; reflexivity.
-  - mret H. inversion H. subst. split; reflexivity.
+  - mbind H. mret H. inversion H. subst. split; [reflexivity|split; [reflexivity|]]. intros _. cbn [g_par]. eapply init_par_nonan. exact E.
+  - mret H. inversion H. subst. split; [reflexivity|split; [reflexivity|discriminate]].
 Qed.
 
 Lemma draw_args_inv n from sup : (0 <= from)%Z -> forall ds l ds', draw_args n from sup ds = Some (l, ds') ->
@@ -235,13 +255,15 @@ Proof. unfold is_terminal. destruct (s_argcats s); [reflexivity|discriminate]. Q
 
 Lemma gene_random_inv s from sup ds ge ds' : (0 <= from)%nat ->
   gene_random s from sup ds = Some (ge, ds') ->
-  g_sym ge = s /\ length (g_args ge) = arity s /\ Forall (fun a => from <= a < sup) (g_args ge).
+  g_sym ge = s /\ length (g_args ge) = arity s /\ Forall (fun a => from <= a < sup) (g_args ge) /\
+  (s_parametric s = true -> is_terminal s = true -> F64.is_nan (g_par ge) = false) /\
+  (is_terminal s = false -> g_par ge = F64.zero).
 Proof.
   intros _. unfold gene_random. destruct (is_terminal s) eqn:Et; intros H.
-  - apply gene_of_terminal_inv in H. destruct H as [H1 H2]. rewrite H2. unfold arity.
-    rewrite (terminal_arity _ Et). repeat split; auto.
-  - mbind H. mret H. inversion H. subst. cbn [g_sym g_args]. apply draw_args_inv in E; [|lia].
-    destruct E as [E1 E2]. repeat split; auto.
+  - apply gene_of_terminal_inv in H. destruct H as (H1 & H2 & H3). rewrite H2. unfold arity.
+    rewrite (terminal_arity _ Et). split; [exact H1|split; [reflexivity|split; [constructor|split; [intros Hp _; apply H3; exact Hp|discriminate]]]].
+  - mbind H. mret H. inversion H. subst. cbn [g_sym g_args g_par]. apply draw_args_inv in E; [|lia].
+    destruct E as [E1 E2]. split; [reflexivity|split; [exact E1|split; [|split; [discriminate|reflexivity]]]].
     eapply Forall_impl; [|exact E2]. cbn. intros x Hx. lia.
 Qed.
 
@@ -250,13 +272,15 @@ Lemma gene_ok_intro R C patch r c ge :
   length (g_args ge) = arity (g_sym ge) ->
   Forall (fun a => r < a < R) (g_args ge) ->
   (R - patch <= r -> is_terminal (g_sym ge) = true) ->
+  (s_parametric (g_sym ge) = true -> F64.is_nan (g_par ge) = false) ->
   gene_ok_b ss R C patch r c ge = true.
 Proof.
-  intros (H1 & H2 & H3) -> H4 H5 H6. unfold gene_ok_b. rewrite H1, H2, H4, H3, !Nat.eqb_refl. cbn [andb].
-  apply andb_true_iff. split.
+  intros (H1 & H2 & H3) -> H4 H5 H6 H7. unfold gene_ok_b. rewrite H1, H2, H4, H3, !Nat.eqb_refl. cbn [andb].
+  apply andb_true_iff. split; [apply andb_true_iff; split|].
   - rewrite andb_true_r. apply forallb_forall. intros a Ha. rewrite Forall_forall in H5. specialize (H5 a Ha).
     apply andb_true_iff. split; apply Nat.ltb_lt; lia.
   - destruct (Nat.leb (R - patch) r) eqn:E; [|reflexivity]. apply H6. apply Nat.leb_le. exact E.
+  - destruct (s_parametric (g_sym ge)); [|reflexivity]. rewrite H7; reflexivity.
 Qed.
 
 Lemma new_gene_ok R patch r c ds ge ds' :
@@ -265,21 +289,24 @@ Lemma new_gene_ok R patch r c ds ge ds' :
 Proof.
   intros Hc H. unfold new_gene in H. destruct (Nat.ltb r (R - patch)) eqn:E.
   - apply Nat.ltb_lt in E. mbind H. apply (roulette_ok c _ _ _ Hc) in E0.
-    apply gene_random_inv in H; [|lia]. destruct H as (H1 & H2 & H3).
+    apply gene_random_inv in H; [|lia]. destruct H as (H1 & H2 & H3 & H4 & H5).
     apply gene_ok_intro.
     + rewrite H1. exact E0.
     + reflexivity.
     + rewrite H1. exact H2.
     + eapply Forall_impl; [|exact H3]. cbn. intros. lia.
     + intros. lia.
+    + rewrite H1. intros Hp. destruct (is_terminal a) eqn:Et; [apply H4; auto|].
+      rewrite (H5 eq_refl). reflexivity.
   - apply Nat.ltb_ge in E. mbind H. apply (roulette_terminal_ok c _ _ _ Hc) in E0. destruct E0 as [E1 E2].
-    apply gene_of_terminal_inv in H. destruct H as [H1 H2].
+    apply gene_of_terminal_inv in H. destruct H as (H1 & H2 & H3).
     apply gene_ok_intro.
     + rewrite H1. exact E1.
     + reflexivity.
     + rewrite H2, H1. unfold arity. rewrite (terminal_arity _ E2). reflexivity.
     + rewrite H2. constructor.
     + intros _. rewrite H1. exact E2.
+    + rewrite H1. exact H3.
 Qed.
 End WithSset.
 
@@ -389,7 +416,7 @@ Lemma gene_ok_args R C patch r c ge al :
   gene_ok_b ss R C patch r c ge = true -> In al (arguments ge) ->
   r < l_index al < R /\ l_cat al < C.
 Proof.
-  unfold gene_ok_b. rewrite !andb_true_iff. intros [[[[_ _] Ha] Hc] _] Hin.
+  intros Hok Hin. apply gene_ok_inv in Hok. destruct Hok as (_ & _ & _ & Ha & Hc & _).
   apply arguments_in in Hin. destruct Hin as [H1 H2].
   rewrite forallb_forall in Ha, Hc. specialize (Ha _ H1). specialize (Hc _ H2).
   apply andb_true_iff in Ha. destruct Ha as [Ha1 Ha2]. apply Nat.ltb_lt in Ha1, Ha2, Hc. lia.
@@ -578,7 +605,7 @@ Proof.
   split; [|auto]. pose proof (proj1 (ind_ok_iff _ _ _) S1) as (P1 & P2 & _).
   assert (Hc : c < ss_cats ss) by lia.
   apply (roulette_terminal_ok ss Hss c _ _ _ Hc) in E0. destruct E0 as [G1 G2].
-  apply gene_of_terminal_inv in E1. destruct E1 as [T1 T2].
+  apply gene_of_terminal_inv in E1. destruct E1 as (T1 & T2 & T3).
   apply set_cell_ok; [exact S1|lia|lia|]. rewrite P2. apply gene_ok_intro.
   - exact Hss.
   - rewrite T1. exact G1.
@@ -586,5 +613,6 @@ Proof.
   - rewrite T2, T1. unfold arity. rewrite (terminal_arity _ G2). reflexivity.
   - rewrite T2. constructor.
   - intros _. rewrite T1. exact G2.
+  - rewrite T1. exact T3.
 Qed.
 End Ops.
